@@ -480,7 +480,9 @@ func ruleS4(c *Ctx, id string) {
 				toVal = stripConv(callCommon(dc).Args[2])
 			}
 		}
-		obj := func(v ssa.Value) bool { return toVal != nil && (v == toVal || bwdSources(toVal)[v] || bwdSources(v)[toVal]) }
+		obj := func(v ssa.Value) bool {
+			return toVal != nil && (v == toVal || bwdSources(toVal)[v] || bwdSources(v)[toVal])
+		}
 		check(ren, rc, obj, "NFSPROC3_RENAME|replaced object empty or not a directory")
 	}
 }
